@@ -142,7 +142,12 @@ def run_case(ctx, col, case):
     for _ in range(rng.randint(3, 12)):
         line, exp, key = rng.choice(FAMILIES)(rng)
         delegate._ack_event.clear()
-        device.recvcb(line + rng.choice(["\n", "\r\n", ""]))
+        # line framing as it reaches the callback: terminators, and now and then leading blanks or the
+        # stray CR of a device that ends its lines with LF CR
+        lead = rng.choice(["", "", "", " ", "\r", "\t", "  "])
+        device.recvcb(lead + line + rng.choice(["\n", "\r\n", "", " \n"]))
+        if lead:
+            col.count("reports_with_leading_whitespace")
         expected.update(exp)
         log.append(line)
         col.count("reports_delivered")
